@@ -173,7 +173,13 @@ func VC32_SNPFlags() {
 				vAssert(c32Has(e.ssnFlags, a), "C32.psnp.newer.requested")
 			}
 		} else {
-			vAssert(e == nil, "C32.psnp.unknown.ignored")
+			// ISO 10589 7.3.15.2 b 5 allows (and for non-zero entries asks for) a placeholder with sequence number 0
+			// and SSN set; bio-rd ignores unknown ids in PSNPs. Either is accepted; what must never happen is a send
+			// flag or a non-zero sequence number for an LSP we do not have
+			if e != nil {
+				vAssert(e.lspdu.SequenceNumber == 0, "C32.psnp.unknown.placeholder.seq0")
+				vAssert(!c32Has(e.srmFlags, a), "C32.psnp.unknown.nosrm")
+			}
 		}
 		return
 	}
